@@ -16,7 +16,7 @@ func init() { registry["C10"] = propC10 }
 func propC10() *Property {
 	return &Property{
 		ID:          "C10",
-		Explanation: "Structural clauses of collection paging only. Decided: (R1) the walk is bounded: the only recursion of harvestWithEmptyCount is guarded by the false edge of `emptyCount > 3`, the counter is incremented exactly on the empty-page edge, and every early return delivers exactly one failure item with a nil continuation; (R2) 'consecutive' means reset: on every path that does not increment the counter, the counter handed to the next page was last assigned a constant (it does not depend on the incoming counter); (R3) slot/source agreement and order: element k of this page is stored at slot k from c.elements[k+startingPoint] (difference of the linear index forms is exactly startingPoint), the result is this page's items followed by the later pages', and the next page is asked for amount-amountFromThisPage items from offset 0; (R4) continuation shape: the page names itself as continuation only under length > amount+startingPoint with next offset amount+startingPoint, otherwise it forwards the deeper result or ends with nil. (R5) in NewCollectionFromObject every path to a store of the following-page link is enumerated; `first` is read only on paths that know the kind is Collection/OrderedCollection and `next` only on paths that exclude both (pages inherit `first`, so a page falling back to it loops for ever). (R6) Harvest and everything it calls write nothing reachable from the collection and no package-level state (mutating methods of sync/atomic and sync.Map values count as writes). (R7) at every call of Harvest outside the implementing packages the collection to go on with and the offset to go on from are both used and end up in the same page (or are returned on together). (R9) client.FetchUnknown refetches every identified object of at most two keys: a {id, type} reference to a page or item is not taken for the (empty) object itself. NOT decided: that these pieces compose to 'every item exactly once, in order' for every layout and chunking, prefix-of-truth on cyclic chains, and the unsigned arithmetic of amountFromThisPage (value-level reasoning).",
+		Explanation: "Structural clauses of collection paging only. Decided: (R1) the walk is bounded: the only recursion of harvestWithEmptyCount is guarded by the false edge of `emptyCount > 3`, the counter is incremented exactly on the empty-page edge, and every early return delivers exactly one failure item with a nil continuation; (R2) 'consecutive' means reset: on every path that does not increment the counter, the counter handed to the next page was last assigned a constant (it does not depend on the incoming counter); (R3) slot/source agreement and order: element k of this page is stored at slot k from c.elements[k+startingPoint] (difference of the linear index forms is exactly startingPoint), the result is this page's items followed by the later pages', and the next page is asked for amount-amountFromThisPage items from offset 0; (R4) continuation shape: the page names itself as continuation only under length > amount+startingPoint with next offset amount+startingPoint, otherwise it forwards the deeper result or ends with nil. (R5) in NewCollectionFromObject every path to a store of the following-page link is enumerated; `first` is read only on paths that know the kind is Collection/OrderedCollection and `next` only on paths that exclude both (pages inherit `first`, so a page falling back to it loops for ever). (R6) Harvest and everything it calls write nothing reachable from the collection and no package-level state (mutating methods of sync/atomic and sync.Map values count as writes). (R7) at every call of Harvest outside the implementing packages the collection to go on with and the offset to go on from are both used and end up in the same page (or are returned on together). (R9) client.FetchUnknown refetches every identified object of at most two keys: a {id, type} reference to a page or item is not taken for the (empty) object itself. (R10) no method of Collection stores into its elements: a page can be read again and gives the same items. NOT decided: that these pieces compose to 'every item exactly once, in order' for every layout and chunking, prefix-of-truth on cyclic chains, and the unsigned arithmetic of amountFromThisPage (value-level reasoning).",
 		Assumptions: []string{"goroutine fan-out in harvest is race-free (C08.R5)"},
 		Rules: []Rule{
 			{ID: "C10.R1", Title: "bounded walk: threshold guard, increment on empty pages only, failure returns", Floor: 3, Run: c10R1},
@@ -26,6 +26,7 @@ func propC10() *Property {
 			{ID: "C10.R5", Title: "the following page is first for a collection and next for a page, never the other way round", Floor: 2, Run: c10R5},
 			{ID: "C10.R6", Title: "harvesting reads the collection and never changes it", Floor: 1, Run: c10R6},
 			{ID: "C10.R7", Title: "the reader keeps the continuation (collection and offset) together", Floor: 2, Run: c10R7},
+			{ID: "C10.R10", Title: "a harvest reads the page and leaves it as it was: no method of Collection stores into its elements, so the same request gives the same items again", Floor: 1, Run: c10R10},
 			{ID: "C10.R9", Title: "a page or item embedded as a bare reference ({id, type}) is fetched, not taken for an empty object: FetchUnknown refetches every identified object of at most two keys", Floor: 1, Run: c10R9},
 			{ID: "C10.R8", Title: "a missing key and JSON null are the same 'absent' that ends a walk: accessors report absent exactly on those (same instances as C17.R4)", Floor: 30, Run: c17R4},
 		},
@@ -1044,5 +1045,55 @@ func c10R9(c *Ctx) {
 	})
 	if !found {
 		c.bad(fname+"/stub-size", P.Pos(fn.Pos()), fname, "FetchUnknown no longer tells a reference object from the object itself by its size before refetching")
+	}
+}
+
+// c10R10: paging is repeatable — the same continuation asked again (the
+// splicer keeps page pointers, jtp's cache hands out the same decoded document)
+// yields the same items. The methods of Collection therefore only read the
+// page: no store into an element of c.elements and no other store to the field
+// outside the constructor.
+func c10R10(c *Ctx) {
+	P := c.P
+	ms := methodsOfType(P, "servitor/pub", "Collection")
+	n := 0
+	var names []string
+	for name := range ms {
+		names = append(names, name)
+	}
+	sortStrings(names)
+	for _, name := range names {
+		fns := []*ssa.Function{ms[name]}
+		fns = append(fns, ms[name].AnonFuncs...)
+		for _, fn := range fns {
+			fname := FuncName(fn)
+			eachInstr(fn, func(_ *ssa.BasicBlock, _ int, in ssa.Instruction) {
+				st, ok := in.(*ssa.Store)
+				if !ok {
+					return
+				}
+				target := ""
+				switch a := st.Addr.(type) {
+				case *ssa.IndexAddr:
+					if ld, ok := unwrapLoad(a.X).(*ssa.UnOp); ok {
+						if fa, ok := ld.X.(*ssa.FieldAddr); ok && fieldOf(fa).Name() == "elements" && isNamed(fa.X.Type(), "servitor/pub", "Collection") {
+							target = "an element of c.elements"
+						}
+					}
+				case *ssa.FieldAddr:
+					if fieldOf(a).Name() == "elements" && isNamed(a.X.Type(), "servitor/pub", "Collection") {
+						target = "c.elements"
+					}
+				}
+				if target == "" {
+					return
+				}
+				n++
+				c.bad(fname+"/page-modified", P.InstrPos(in), fname, "a method of Collection stores into "+target+": the page is not the same the next time it is read (the decoded document is shared with the response cache), so asking for the same items again gives something else")
+			})
+		}
+	}
+	if n == 0 {
+		c.ok("servitor/pub.Collection/read-only", "pub/collection.go", "servitor/pub.Collection", fmt.Sprintf("%d methods of Collection, none stores into the elements", len(names)))
 	}
 }
